@@ -259,8 +259,13 @@ func NewLogger(filename string, rule RotateRule, compress bool) (*RotateLogger, 
 
 // Write 将 data 写入轮换日志。
 func (l *RotateLogger) Write(data []byte) (int, error) {
+	// io.Writer 不允许保留调用方的切片：调用方（如 fmt 的缓冲池）会在 Write 返回后立刻复用它，
+	// 而记录要在队列中等待后台协程写入，所以入队的必须是副本。
+	record := make([]byte, len(data))
+	copy(record, data)
+
 	select {
-	case l.channel <- data:
+	case l.channel <- record:
 		return len(data), nil
 	case <-l.done:
 		log.Println(string(data))
